@@ -30,6 +30,12 @@ def join(a: Optional[str], b: Optional[str]) -> Optional[str]:
     return a if a == b else U
 
 
+def is_parametric(st: Optional[str]) -> bool:
+    """`?p`: the value passed an `isinstance(value, p)` test where p is a parameter of the function (a generic typed getter);
+    the call site decides what that is.  Inside the function it counts as unchecked."""
+    return isinstance(st, str) and st.startswith('?')
+
+
 class JsonTypestate:
     def __init__(self, prog: Program, cg: CallGraph, flow: Flow, abs_: Abs, module: str = 'json_ast'):
         self.prog, self.cg, self.flow, self.abs = prog, cg, flow, abs_
@@ -51,7 +57,16 @@ class JsonTypestate:
             it += 1
             for fn in self.fns:
                 self._summarise(fn)
+        called = {t.fq for g in self.prog.all_functions() for c in iter_own_nodes(g.node) if isinstance(c, ast.Call)
+                  for t in self.cg.env(g).resolve_call(c) if isinstance(t, FuncInfo)}
+        inlined = {callee for _caller, callee in self.prog.inlined}
+        self.judged_at_call_sites: List[str] = []
         for fn in self.fns:
+            if fn.fq in inlined and fn.fq not in called and not (fn.cls is None and fn.name.startswith('parse_')):
+                # a generic helper whose every call was expanded in place (normal forms N7/N11/N13/N16): its body is judged
+                # in each caller with the actual item parser / type / table; the definition itself is not an entry point
+                self.judged_at_call_sites.append(fn.fq)
+                continue
             self._check_uses(fn)
         return it
 
@@ -70,6 +85,82 @@ class JsonTypestate:
                     self.param_state[(fn.fq, a.arg)] = None
                 else:
                     self.param_state[(fn.fq, a.arg)] = None
+        self._demote_configuration_params()
+
+    def _demote_configuration_params(self):
+        """A parameter that, at every call site in the package (at least one), receives something that cannot come out of a
+        document - a module-level constant, a function / class / builtin type name, a literal, or the caller's own parameter of
+        that kind - is configuration of a generic helper (expected type, item parser, keyword table), not a JSON value."""
+        sites: Dict[str, List[Tuple[FuncInfo, ast.Call]]] = {}
+        for g in self.prog.all_functions():
+            for c in iter_own_nodes(g.node):
+                if isinstance(c, ast.Call):
+                    for t in self.cg.env(g).resolve_call(c):
+                        if isinstance(t, FuncInfo) and t.module is self.mod:
+                            sites.setdefault(t.fq, []).append((g, c, t))
+        import builtins
+        config: Set[Tuple[str, str]] = set()
+
+        def is_config(g: FuncInfo, a: ast.AST) -> bool:
+            if isinstance(a, ast.Constant):
+                return True
+            if isinstance(a, ast.Lambda):
+                return True
+            if isinstance(a, (ast.Name, ast.Attribute)):
+                if isinstance(a, ast.Name) and (g.fq, a.id) in config and a.id not in self.cg.env(g)._assign_sites:
+                    return True
+                if isinstance(a, ast.Name) and (a.id in self.cg.env(g)._assign_sites or a.id in [x.arg for x in g.params()]):
+                    return False
+                sym = self.prog.resolve_expr_symbol(g.module, a)
+                if isinstance(sym, (FuncInfo, ClassInfo)):
+                    return True
+                if isinstance(sym, tuple) and sym[0] in ('const', 'enum_member'):
+                    return True
+                if isinstance(a, ast.Name) and sym is None and hasattr(builtins, a.id):
+                    return True
+            return False
+
+        changed = True
+        while changed:
+            changed = False
+            for fn in self.fns:
+                if fn.name.startswith('parse_') and fn.cls is None:
+                    continue        # the parse functions are entry points of their own: their elements are documents
+                ss = sites.get(fn.fq, [])
+                if not ss:
+                    continue
+                for a in fn.params():
+                    key = (fn.fq, a.arg)
+                    if a.arg in ('self', 'cls') or key in config:
+                        continue
+                    args = []
+                    for g, c, t in ss:
+                        b = self.prog.bind_call(g.module, c, t)
+                        if a.arg in b:
+                            args.append((g, b[a.arg]))
+                        elif a.arg not in [x.arg for x in fn.params() if x.arg in b] and self._has_default(fn, a.arg):
+                            continue
+                        else:
+                            args = None
+                            break
+                    if args and all(is_config(g, x) for g, x in args):
+                        config.add(key)
+                        self.param_state[key] = None
+                        changed = True
+        self.config_params = config
+
+    @staticmethod
+    def _has_default(fn: FuncInfo, name: str) -> bool:
+        a = fn.node.args
+        pos = a.posonlyargs + a.args
+        n_def = len(a.defaults)
+        for i, x in enumerate(pos):
+            if x.arg == name:
+                return i >= len(pos) - n_def
+        for x, d in zip(a.kwonlyargs, a.kw_defaults):
+            if x.arg == name:
+                return d is not None
+        return False
 
     def _field_invariants(self):
         """self.X = P in __init__ together with a top-level `if not isinstance(P|self.X, T): raise` makes
@@ -112,6 +203,9 @@ class JsonTypestate:
                     tn = cond.args[1]
                     if isinstance(tn, ast.Name) and tn.id in TYPE_STATE:
                         base = TYPE_STATE[tn.id]
+                    elif isinstance(tn, ast.Name) and (fn.fq, tn.id) in getattr(self, 'config_params', ()) and \
+                            tn.id not in self.cg.env(fn)._assign_sites:
+                        base = '?' + tn.id
         return base
 
     def _raw_state(self, fn: FuncInfo, e: ast.AST, depth: int) -> Optional[str]:
@@ -163,7 +257,16 @@ class JsonTypestate:
                 return U
             for c in env.resolve_call(e):
                 if isinstance(c, FuncInfo) and c.fq in self.ret_state and c.name not in ('__init__', '__post_init__'):
-                    return self.ret_state[c.fq]
+                    rs = self.ret_state[c.fq]
+                    if is_parametric(rs):
+                        a = prog.bind_call(fn.module, e, c).get(rs[1:])
+                        if isinstance(a, ast.Name) and a.id in TYPE_STATE and prog.resolve_name(fn.module, a.id) is None:
+                            return TYPE_STATE[a.id]
+                        if isinstance(a, ast.Name) and (fn.fq, a.id) in getattr(self, 'config_params', ()) and \
+                                a.id not in env._assign_sites:
+                            return '?' + a.id
+                        return U
+                    return rs
             if isinstance(f, ast.Attribute) and f.attr in ('get', 'pop', 'setdefault', 'copy') and \
                     self.state(fn, f.value, f.value, depth + 1) is not None:
                 return U       # an element (or the default) taken out of a decoded JSON container: a JSON value again
@@ -278,7 +381,7 @@ class JsonTypestate:
                             else:
                                 rec(p, 'membership', st, True, f'membership test in checked {st} `{txt}`')
                         else:
-                            if st in (U, D, L):
+                            if st in (U, D, L) or is_parametric(st):
                                 bad = True
                                 rec(p, 'hash', st, False, f'`{txt}` is used as a key (unhashable for list/dict values)')
                     elif isinstance(op, (ast.Lt, ast.LtE, ast.Gt, ast.GtE)):
@@ -320,7 +423,7 @@ class JsonTypestate:
                     # argument of a method of a non-JSON object (e.g. list.append(value)): storing
                     rec(p, 'store', st, True, f'`{txt}` passed to `{ast.unparse(f)[:30]}` (stored)')
                 else:
-                    rec(p, 'external', st, st != U, f'`{txt}` handed to unresolved code `{ast.unparse(f)[:30]}`')
+                    rec(p, 'external', st, st != U and not is_parametric(st), f'`{txt}` handed to unresolved code `{ast.unparse(f)[:30]}`')
             elif isinstance(p, (ast.BinOp, ast.AugAssign)):
                 rec(p, 'arithmetic', st, st in (I, S), f'arithmetic / concatenation on `{txt}`')
             elif isinstance(p, ast.UnaryOp) and not isinstance(p.op, ast.Not):
